@@ -869,6 +869,10 @@ class FunctionRun:
         ex = head.copy()
         ex.assume(i == seq.length)
         ex.writable = st.writable
+        for j, lm in enumerate(spec.exit_lemmas if spec else []):
+            goal = self.spec_bool(lm, ex, self.entry)
+            self.oblige(ex, 'lemma', goal, s, 'L%d.exit%d' % (k, j), detail=lm)
+            ex.assume(goal)
         after_loop.append(ex)
         return outs + after_loop
 
